@@ -61,6 +61,16 @@ def exclusive_regions(cfg, entries):
     return out
 
 
+def arm_regions(cfg, entries):
+    """entries: {key: entry block}.  Region of an arm = blocks reachable from its entry minus the
+    code reachable from EVERY arm (the code after the match).  Arms written as or-patterns bind
+    their variables in separate blocks and then share one body: each of them gets that body."""
+    reach = {k: cfg.reachable_from(b) for k, b in entries.items()}
+    big = [r for r in reach.values() if len(r) > 1]
+    common = set.intersection(*big) if big else set()
+    return {k: (r - common) | {entries[k]} for k, r in reach.items()}
+
+
 def enum_switches(body, adt_path, f=None):
     """[(bb, place, {variant_index: target}, otherwise)] for switches on discriminant(place) where
     the place's type is the ADT"""
